@@ -161,10 +161,15 @@ func (s *Store) AddSourceSnapshot(ckpt *jobpb.SourceRunnerCheckpointCompleteRequ
 	return nil
 }
 
+// RegisterSourceSplitter is called when a new deployment of the job begins. The
+// splitter replaces the one of the previous deployment, and a snapshot still
+// pending from the previous deployment is abandoned because its members will
+// never acknowledge it.
 func (s *Store) RegisterSourceSplitter(splitter connectors.SourceSplitter) {
 	s.stateMu.Lock()
 	defer s.stateMu.Unlock()
-	s.sourceSplitters = append(s.sourceSplitters, splitter)
+	s.sourceSplitters = []connectors.SourceSplitter{splitter}
+	s.state.pendingSnapshot = nil
 }
 
 func (s *Store) finishSnapshot(snap *jobSnapshot) {
